@@ -1076,6 +1076,22 @@ def D4(m, R):
             forms[form] = rgb_args(form, 'FOREGROUND')
         except _Und as ex:
             forms[form] = ex
+    # the other components hand over the same three values in the same order
+    for comp_ in ('BACKGROUND', 'UNDERLINE', 'DOUBLE_UNDERLINE'):
+        cons_ = 'rgb arguments ' + comp_
+        try:
+            prob_ = []
+            for form in ('three', 'packed'):
+                ref_ = forms[form]
+                if isinstance(ref_, Exception):
+                    raise _Und(str(ref_))
+                got_ = rgb_args(form, comp_)
+                if [norm(x) for x in got_[0]] != [norm(x) for x in ref_[0]]:
+                    prob_.append('for %s the colour function receives (%s) in the %s form, the FOREGROUND arm passes (%s)' % (
+                        comp_, ', '.join(short(x) for x in got_[0]), 'three-value' if form == 'three' else 'packed', ', '.join(short(x) for x in ref_[0])))
+            R.check(not prob_, f, f.node, 'component %s passes the same red, green, blue values as FOREGROUND' % comp_, '; '.join(prob_), construct=cons_)
+        except _Und as ex:
+            R.undecided(f, f.node, 'arguments for %s not evaluated: %s' % (comp_, ex), construct=cons_)
     names3 = ('r', 'g', 'b')
     for i_, (t, srcp) in enumerate(zip(names3, (P0, P1, P2))):
         cons = 'rgb clamp ' + t
